@@ -162,3 +162,34 @@ def main(pos, opts, seed):
         print("HARNESS-ERROR: non-deterministic engines: %s (see %s)" % (", ".join(bad), out), file=sys.stderr)
         return 2
     return 0
+
+
+def silence(pos, opts, seed):
+    """./check silence [ID...] [--seeds N] — the quick checks must stay silent on the unchanged tree for many seeds
+    (no VIOLATION, exit 0, KNOWN-FINDING lines allowed). Never rewrites the evidence. Report: reports/silence.json."""
+    props = pos or ["C03", "C04", "C12", "C14"]
+    n = int(opts.get("seeds", "5"))
+    out = {}
+    bad = []
+    for prop in props:
+        rows = []
+        for i in range(n):
+            sd = seed + 1000 + i * 7919
+            env = dict(os.environ)
+            env.update({"VERIF_SEED": str(sd), "VERIF_NO_EVIDENCE": "1"})
+            env.pop("VERIF_REPO_DIR", None)
+            t1 = time.time()
+            r = subprocess.run([os.path.join(common.VERIF, "check"), prop, "--tier", "quick"], cwd=common.VERIF, env=env, stdout=subprocess.PIPE, stderr=subprocess.STDOUT, text=True)
+            viol = [l for l in r.stdout.splitlines() if l.startswith("VIOLATION ")]
+            rows.append({"seed": sd, "rc": r.returncode, "violations": viol, "wall_s": round(time.time() - t1, 1)})
+            log("[silence] %s seed=%d rc=%d (%.0fs)" % (prop, sd, r.returncode, time.time() - t1))
+            if r.returncode != 0 or viol:
+                bad.append((prop, sd))
+                rows[-1]["tail"] = r.stdout[-1500:]
+        out[prop] = rows
+    os.makedirs(os.path.join(common.VERIF, "reports"), exist_ok=True)
+    json.dump({"base_seed": seed, "runs": out}, open(os.path.join(common.VERIF, "reports", "silence.json"), "w"), indent=1)
+    if bad:
+        print("HARNESS-ERROR: quick checks were not silent on the unchanged tree for %s" % bad, file=sys.stderr)
+        return 2
+    return 0
